@@ -1,11 +1,50 @@
+import Ypv.Drv.C01
+import Ypv.Drv.C02
+import Ypv.Drv.C03
+import Ypv.Drv.C04
+import Ypv.Drv.C05
+import Ypv.Drv.C06
+import Ypv.Drv.C07
+import Ypv.Drv.C08
+import Ypv.Drv.C09
+import Ypv.Drv.C10
+import Ypv.Drv.C11
+import Ypv.Drv.C12
+import Ypv.Drv.C13
 import Ypv.Drv.C14
-/-! `ypv-driver`: one JSON request per input line, one JSON answer per output line. -/
+import Ypv.Drv.C15
+import Ypv.Drv.C16
+import Ypv.Drv.C17
+import Ypv.Drv.C18
+import Ypv.Drv.C19
+/-! `ypv-driver`: one JSON request per input line, one JSON answer per output line.
+A request is `{"op": "<Cxx>.<name>", ...}` (or the legacy `"parse"`); it is routed to
+`Ypv.Drv.<Cxx>.handle name request`. -/
 open Lean (Json)
 
 def dispatch (j : Json) : Except String Json := do
   let op ← j.getObjValAs? String "op"
-  match op with
-  | "parse" => Ypv.Drv.C14.handle j
+  if op = "parse" then Ypv.Drv.C14.handle j else
+  match op.splitOn "." with
+  | ["C01", name] => Ypv.Drv.C01.handle name j
+  | ["C02", name] => Ypv.Drv.C02.handle name j
+  | ["C03", name] => Ypv.Drv.C03.handle name j
+  | ["C04", name] => Ypv.Drv.C04.handle name j
+  | ["C05", name] => Ypv.Drv.C05.handle name j
+  | ["C06", name] => Ypv.Drv.C06.handle name j
+  | ["C07", name] => Ypv.Drv.C07.handle name j
+  | ["C08", name] => Ypv.Drv.C08.handle name j
+  | ["C09", name] => Ypv.Drv.C09.handle name j
+  | ["C10", name] => Ypv.Drv.C10.handle name j
+  | ["C11", name] => Ypv.Drv.C11.handle name j
+  | ["C12", name] => Ypv.Drv.C12.handle name j
+  | ["C13", name] => Ypv.Drv.C13.handle name j
+  | ["C14", _] => Ypv.Drv.C14.handle j
+  | ["C15", name] => Ypv.Drv.C15.handle name j
+  | ["C16", name] => Ypv.Drv.C16.handle name j
+  | ["C17", name] => Ypv.Drv.C17.handle name j
+  | ["C18", name] => Ypv.Drv.C18.handle name j
+  | ["C19", name] => Ypv.Drv.C19.handle name j
   | _ => throw s!"unknown op {op}"
 
 partial def loop (hin hout : IO.FS.Stream) : IO Unit := do
